@@ -1289,6 +1289,11 @@ func SelectExpr(query *Query, current Map, expr *sqlparser.SelectExprs, opts ...
 						if err != nil {
 							return err
 						}
+						// a later select item wrote the same column: that one wins,
+						// exactly as it does for unqualified calls
+						if current, ok := data[name].(*any); !ok || current != valueRaw {
+							return nil
+						}
 
 						value := *valueRaw
 						for {
